@@ -2220,10 +2220,16 @@ class DateAdapter(se.Adapter):
         self._multiplier = multiplier
 
     def decode(self, val: Any, ctx: Optional[se.ParseContext], pod: bool = False) -> Any:
-        return datetime.datetime.fromtimestamp(val / self._multiplier).isoformat()
+        # Whole seconds and the sub-second part are kept apart, a float of seconds
+        # can't hold a microsecond stamp exactly
+        secs, frac = divmod(val, self._multiplier)
+        when = datetime.datetime.fromtimestamp(secs)
+        return when.replace(microsecond=frac * 1_000_000 // self._multiplier).isoformat()
 
     def encode(self, val: Any, ctx: Optional[se.ParseContext]) -> Any:
-        return int(datetime.datetime.fromisoformat(val).timestamp() * self._multiplier)
+        when = datetime.datetime.fromisoformat(val)
+        secs = round(when.replace(microsecond=0).timestamp())
+        return secs * self._multiplier + when.microsecond * self._multiplier // 1_000_000
 
 
 @se.enum_field_serializer("MeanCollisionAlert", "MeanCollision", "Type")
